@@ -67,6 +67,21 @@ class CallMixin:
             if name == "__dict__":
                 # the instance dictionary, only usable through .get(name[, default]) (= getattr restricted to instance attributes)
                 return [self.val(st, VFn("instdict", name="__dict__", self_=v))]
+            lit = self._class_level_literal(v.cls, name)
+            if lit is not None:
+                # an attribute the schema does not declare but the class body defines as a literal (a default, a cache slot): an instance may have
+                # stored its own value under that name (uninterpreted presence / value), otherwise the class-level literal is read
+                f_ = z3.Function("obj_getattr_dyn", ty.IntS, ty.StrS, ty.IntS)
+                h_ = z3.Function("obj_hasattr_dyn", ty.IntS, ty.StrS, ty.BoolS)
+                self.abstractions.add("attribute defined by a class-level literal and not declared in the schema: instance override is uninterpreted")
+                ot = to_obj_term(v)
+                out_ = []
+                for b_, s_ in self.branch(st, h_(ot, z3.StringVal(name))):
+                    if b_:
+                        out_.append(self.val(s_, VObj(f_(ot, z3.StringVal(name)))))
+                    else:
+                        out_ += self.ev(lit, s_)
+                return out_
             raise EngineError(f"class {v.cls} has no field or method {name!r} in the schema")
         if isinstance(v, VModule):
             dotted = f"{v.name}.{name}"
@@ -175,6 +190,25 @@ class CallMixin:
 
     def check_guarded_write(self, ref, field, st):
         pass
+
+    def _class_level_literal(self, cls, name):
+        """The literal a class body (along the MRO, in the verified source) assigns to `name`, or None."""
+        for c in self.schema.mro(cls):
+            d = self.schema.classes.get(c)
+            if d is None or not d.module:
+                continue
+            try:
+                mi = self.repo.module(d.module)
+            except EngineError:
+                continue
+            cnode = mi.classes.get(d.src_name or c) if hasattr(mi, "classes") else None
+            if cnode is None:
+                continue
+            for stmt_ in cnode.body:
+                if isinstance(stmt_, ast.Assign) and len(stmt_.targets) == 1 and isinstance(stmt_.targets[0], ast.Name) and \
+                        stmt_.targets[0].id == name and isinstance(stmt_.value, ast.Constant):
+                    return stmt_.value
+        return None
 
     def find_method(self, cls, name):
         """('src', module, FunctionDef, cls) | ('ext', key) | None along the MRO."""
